@@ -534,14 +534,14 @@ theorem Tweak.append {s : State} {p : FId} {fp : Fiber} (nf : Fiber) (h : s.fibe
       | zero => rw [hidx] at hq; simp at hq; subst hq; exact hnc
       | succ n => rw [hidx] at hq; simp at hq
 
-theorem execNew_res {s : State} {p : FId} {fp : Fiber} {rest : List FId} (c : Ctx s p fp rest) (l : Nat) (body : Tm) (flags : List Nat) (k : Tm) :
-    Res s (execNew s p fp l body flags k) := by
+theorem execNew_res {s : State} {p : FId} {fp : Fiber} {rest : List FId} (c : Ctx s p fp rest) (l : Nat) (body : Tm) (flags : List Nat) (k : Tm) (sg : Sig) :
+    Res s (execNew s p fp l body flags k sg) := by
   unfold execNew
   simp only []
   have t := foldl_newEnvStep_tweak (p := p) flags (s, fp, none) c.hfp
   have t2 := t.trans (Tweak.append (s := (flags.foldl (newEnvStep p) (s, fp, none)).1)
     { status := stNew, mask := maskOfFlags flags, ctl := .run body, env := (flags.foldl (newEnvStep p) (s, fp, none)).2.1.env,
-      denv := (flags.foldl (newEnvStep p) (s, fp, none)).2.2 } t.cur rfl rfl)
+      denv := (flags.foldl (newEnvStep p) (s, fp, none)).2.2, sig := sg } t.cur rfl rfl)
   exact Res.trans t2.mono ((c.tweak t2).bind _ _ _ rfl rfl rfl)
 
 theorem execLoopNext_res {s : State} {p : FId} {fp : Fiber} {rest : List FId} (c : Ctx s p fp rest) (l : Nat) (f : Atom) (body k : Tm) :
@@ -591,7 +591,10 @@ theorem step_res (s : State) (hinv : Inv s) : Res s (step s) := by
             · exact c.res (Tweak.setFiber _ c.hfp (by rfl) (by rfl) (by rfl) (by rfl))
           · exact c.res (Tweak.setFiber _ c.hfp (by rfl) (by rfl) (by rfl) (by rfl))
           · exact execPrim_res c _ _ _
-          · exact execNew_res c _ _ _ _
+          · exact execNew_res c _ _ _ _ _
+          · split
+            · exact panic_res _ c.hfp c.alive rfl c.hpo c.pp c.hs.tail.1 c.hs.tail.2
+            · exact execNew_res c _ _ _ _ _
           · exact c.res (Tweak.setFiber _ c.hfp (by rfl) (by rfl) (by rfl) (by rfl))
           · exact c.res (Tweak.setFiber _ c.hfp (by rfl) (by rfl) (by rfl) (by rfl))
           · exact execLoopNext_res c _ _ _ _
@@ -610,9 +613,9 @@ theorem run_res : ∀ (n : Nat) (s : State), Inv s → Res s (run n s) := by
       exact Res.trans h1.1 (ih _ h1.2)
 
 theorem init_inv (t : Tm) (flags : List Nat) : Inv (init t flags) := by
-  unfold init
+  unfold init initp
   simp only []
-  refine (startRun_res (cur := { status := stNew, mask := maskOfFlags flags, ctl := .run t }) [] .nil (by rfl) (by exact (by decide : refuseResume.contains stNew = false)) rfl ?_ (by intro _ h; cases h)
+  refine (startRun_res (cur := { status := stNew, mask := maskOfFlags flags, ctl := .run t, sig := {} }) [] .nil (by rfl) (by exact (by decide : refuseResume.contains stNew = false)) rfl ?_ (by intro _ h; cases h)
     ⟨List.nodup_nil, fun _ h => by cases h⟩).2
   intro g fg sg hg hpe
   match g, hg with
